@@ -264,7 +264,7 @@ def on_field(f, operand, field):
     return ("." + field) in o.get("proj", []) or ("." + field) in o.get("place", "")
 
 
-def sleep_ops(f):
+def _direct_sleep_ops(f):
     """atomic calls whose receiver is `.sleep_state`: list of (method, Call, constant-argument-or-None)."""
     out = []
     for call in f.calls():
@@ -283,6 +283,109 @@ def sleep_ops(f):
             if o.get("kind") == "const" and "v" in o:
                 v = o["v"]
         out.append((m, call, v))
+    return out
+
+
+def sleep_setters(c):
+    """INLINE VIEW, part 1: same-crate accessor functions that do nothing to sleep_state but store one of their own
+    parameters into it, on every path to their return.  {npath: (Fn, parameter number)}.  A call to such a function
+    is treated by sleep_ops() as `store(<origin of that argument at the call site>)` in the calling block."""
+    cached = getattr(c, "_c23_setters", None)
+    if cached is not None:
+        return cached
+    out = {}
+    for h in c.fns.values():
+        ops = _direct_sleep_ops(h)
+        if not ops or any(m != "store" for m, _, _ in ops):
+            continue
+        params = set()
+        for m, call, v in ops:
+            o = h.origin(call.args[1]) if len(call.args) > 1 else {}
+            if o.get("kind") == "arg" and not o.get("proj"):
+                params.add(o["n"])
+            else:
+                params.add(None)
+        if len(params) != 1 or None in params:
+            continue
+        blocks = [call.bb for _, call, _ in ops]
+        if not h.returns() or not every_return_passes(h, blocks) or any(h.in_cycle(b) for b in blocks):
+            continue
+        # the receiver must be the sleep_state reached from the function's own `self`
+        if not all(h.origin(call.args[0]).get("kind") in ("arg", "call") for _, call, _ in ops):
+            continue
+        out[h.npath] = (h, params.pop())
+    c._c23_setters = out
+    return out
+
+
+def setter_of(c, call):
+    st = sleep_setters(c)
+    for n in call.names():
+        hit = st.get(mir.norm(n))
+        if hit:
+            return hit
+    return None
+
+
+def sleep_ops(f):
+    """operations on `.sleep_state` in f: the direct atomic calls plus, through the inline view, calls to a setter
+    accessor (reported as a `store` of the argument's constant at the call block)."""
+    out = _direct_sleep_ops(f)
+    c = f.crate
+    for call in f.calls():
+        hit = setter_of(c, call)
+        if not hit or hit[0].path == f.path:
+            continue
+        h, n = hit
+        v = None
+        if len(call.args) >= n:
+            o = f.origin(call.args[n - 1])
+            if o.get("kind") == "const" and "v" in o:
+                v = o["v"]
+        out.append(("store", call, v))
+    out.sort(key=lambda t: t[1].bb)
+    return out
+
+
+def code_builders(c):
+    """INLINE VIEW, part 2: same-crate functions that on every path return one and the same CallbackCode variant
+    built by themselves.  {npath: variant}."""
+    cached = getattr(c, "_c23_builders", None)
+    if cached is not None:
+        return cached
+    out = {}
+    for h in c.fns.values():
+        ags = h.aggregates("CallbackCode")
+        if not ags or not h.returns():
+            continue
+        vs = {rv["var"] for _, _, rv, _ in ags}
+        if len(vs) != 1:
+            continue
+        if any(st["p"]["l"] != 0 or st["p"].get("p") for _, _, _, st in ags):
+            continue
+        if not every_return_passes(h, [b for b, _, _, _ in ags]):
+            continue
+        # nobody else writes the return place
+        others = [1 for b in h.live for st in h.stmts(b) if st["k"] == "=" and st["p"]["l"] == 0 and
+                  st["rv"]["k"] != "agg"]
+        others += [1 for x in h.calls() if x.dest.get("l") == 0]
+        if others:
+            continue
+        out[h.npath] = vs.pop()
+    c._c23_builders = out
+    return out
+
+
+def codes_built(f):
+    """[(bb, variant)] CallbackCode values built in f: aggregates, plus calls to a one-variant builder."""
+    out = [(b, rv["var"]) for b, i, rv, s in f.aggregates("CallbackCode")]
+    bl = code_builders(f.crate)
+    for call in f.calls():
+        for n in call.names():
+            v = bl.get(mir.norm(n))
+            if v and mir.norm(n) != f.npath:
+                out.append((call.bb, v))
+                break
     return out
 
 
@@ -484,10 +587,24 @@ def one(rep, c, cfg):
             if not hops and not nref:
                 continue
             nm = short(h)
+            if h.npath in sleep_setters(c):
+                # an accessor that only stores its parameter: judged at its call sites (inline view); every caller
+                # must itself be allowed to touch the state
+                rep.saw(h)
+                callers = [g for g in c.fns.values() if g.path != h.path and
+                           any(setter_of(c, x) and setter_of(c, x)[0].path == h.path for x in g.calls())]
+                outside = [short(g) for g in callers if g.path not in allowed_fns]
+                rep.ob("R23.1", f"sleep_state accessor {nm} is called only by callback, Drop for TaskState and "
+                       f"wake_by_ref {tag}", bool(callers) and not outside,
+                       f"called from {outside}" if outside else "no caller found", h.loc())
+                rep.ob("R23.1", f"every reference to sleep_state in {nm} feeds a recognised atomic operation {tag}",
+                       nref == len(_direct_sleep_ops(h)), "", h.loc())
+                continue
             rep.ob("R23.1", f"sleep_state touched only by callback, Drop for TaskState and wake_by_ref: {nm} {tag}",
                    h.path in allowed_fns, "another function reads or writes the sleep state", h.loc())
             rep.ob("R23.1", f"every reference to sleep_state in {nm} feeds a recognised atomic operation {tag}",
-                   nref == len(hops), f"{nref} reference(s), {len(hops)} atomic operation(s)", h.loc())
+                   nref == len(_direct_sleep_ops(h)),
+                   f"{nref} reference(s), {len(_direct_sleep_ops(h))} atomic operation(s)", h.loc())
             for m, call, val in hops:
                 nsites += 1
                 if m == "load":
@@ -555,7 +672,7 @@ def one(rep, c, cfg):
             bad = [x for x in st_other if r in f.reachable(x, avoid=st_sleep)]
             rep.ob("R23.4", f"callback: SLEEPING is the last state stored before read_inter_task_stream {tag}", not bad,
                    "another state is stored between store(SLEEPING) and the read", f.loc(bad[0]) if bad else f.loc(r))
-            ag = [(b, rv["var"]) for b, i, rv, s in f.aggregates("CallbackCode") if b in f.reachable(r)]
+            ag = [(b, v) for b, v in codes_built(f) if b in f.reachable(r)]
             rep.ob("R23.4", f"callback: after read_inter_task_stream the task returns Wait {tag}",
                    bool(ag) and all(v == "Wait" for _, v in ag), f"codes built after the read: {sorted({v for _, v in ag})}",
                    f.loc(r))
@@ -583,7 +700,7 @@ def one(rep, c, cfg):
                         ok = True
                         # wake seen after the poll: Yield or poll again, never sleep / exit
                         reg = f.reachable(e["eq"], avoid=polls)
-                        ag = [rv["var"] for b, i, rv, st in f.aggregates("CallbackCode") if b in reg]
+                        ag = [v for b, v in codes_built(f) if b in reg]
                         rep.ob("R23.4", f"callback: woken during the poll => Yield or poll again, never Wait/Exit {tag}",
                                all(v == "Yield" for v in ag) and not (set(reads) & reg),
                                f"codes built on the woken path: {sorted(set(ag))}", f.loc(e["bb"]))
@@ -597,7 +714,7 @@ def one(rep, c, cfg):
                    "the pending read can be consumed / cancelled while wake_by_ref would still write to the stream",
                    f.loc(x))
         # outer function: only the closure decides Wait / Yield
-        ag = [rv["var"] for b, i, rv, s in cb.aggregates("CallbackCode")]
+        ag = [v for b, v in codes_built(cb)]
         rep.ob("R23.4", f"callback: outside the polling closure only Exit is returned {tag}",
                all(v == "Exit" for v in ag), f"{sorted(set(ag))}", cb.loc())
         # Drop for TaskState
